@@ -1,76 +1,10 @@
-(* Dispatch.v -- the table of correspondence entries: for every entry point exercised by the Go
-   harness, how the model computes the projected outcome from the case's input ([e_run]) and how
-   the executable statement of property number p judges an implementation outcome
-   ([e_verdict p], built from the independent specifications).
-   Used extracted (ocaml/driver) and by vm_compute (gen/Golden_*.v). *)
-Require Import MB.GoSem MB.Val MB.CrcModel MB.CrcSpec MB.DispPacket.
+(* Dispatch.v -- the table of all correspondence entries (see Entry.v): the concatenation of the
+   tables of the layers.  Used extracted (ocaml/driver) and by vm_compute (gen/Golden_*.v). *)
+Require Import MB.GoSem MB.Val MB.Entry MB.DispPacket.
 From Coq Require Import String.
-Open Scope string_scope.
-Open Scope N_scope.
 
-Record entry := { e_name : string; e_run : list val -> val; e_verdict : N -> list val -> val -> N }.
+Definition table : list entry := table_packet.
 
-Definition no_verdict (_ : N) (_ : list val) (_ : val) : N := NOT_JUDGED.
-
-(* ---- CRC16 itself (C03 a) ---- *)
-Definition run_crc16 (a : list val) : val :=
-  match a with [VB l] => vN (crc16 l) | _ => v_bad end.
-Definition verdict_crc16 (p : N) (a : list val) (out : val) : N :=
-  match a with
-  | [VB l] => if val_eqb out (vN (spec_crc16 l)) then HOLDS else VIOLATES
-  | _ => NOT_JUDGED
-  end.
-
-Definition ctor_entry (nm : string) : entry :=
-  {| e_name := nm; e_run := run_ctor nm;
-     e_verdict := fun p a o => if p =? 1 then verdict_ctor_C01 nm a o
-                               else if p =? 3 then verdict_ctor_C03 nm a o else NOT_JUDGED |}.
-
-Definition table : list entry :=
-  [ {| e_name := "crc16"; e_run := run_crc16; e_verdict := verdict_crc16 |};
-    ctor_entry "new_read"; ctor_entry "new_wcoil"; ctor_entry "new_wreg"; ctor_entry "new_wcoils";
-    ctor_entry "new_wregs"; ctor_entry "new_srvid"; ctor_entry "new_rw";
-    {| e_name := "rt_req"; e_run := run_rt_req;
-       e_verdict := fun p a o => if p =? 9 then verdict_rt_req_C09 a o else NOT_JUDGED |};
-    {| e_name := "parse1"; e_run := run_parse1;
-       e_verdict := fun p a o => if p =? 9 then verdict_parse1_C09 a o
-                                 else if p =? 3 then verdict_parse1_C03 a o
-                                 else if p =? 2 then verdict_parse1_C02 a o else NOT_JUDGED |};
-    {| e_name := "parse3"; e_run := run_parse3;
-       e_verdict := fun p a o => if p =? 10 then verdict_parse3_C10 a o else NOT_JUDGED |};
-    {| e_name := "resp_bytes"; e_run := run_resp_bytes;
-       e_verdict := fun p a o => if p =? 3 then verdict_bytes_C03 a o else NOT_JUDGED |};
-    {| e_name := "exc_bytes"; e_run := run_exc_bytes;
-       e_verdict := fun p a o => if p =? 3 then verdict_bytes_C03 a o else NOT_JUDGED |};
-    {| e_name := "rt_resp"; e_run := run_rt_resp;
-       e_verdict := fun p a o => if p =? 2 then verdict_rt_resp_C02 a o else NOT_JUDGED |};
-    {| e_name := "fc17"; e_run := run_fc17;
-       e_verdict := fun p a o => if p =? 2 then verdict_fc17_C02 a o else NOT_JUDGED |};
-    {| e_name := "exc"; e_run := run_exc;
-       e_verdict := fun p a o => if p =? 2 then verdict_exc_C02 a o else NOT_JUDGED |};
-    {| e_name := "coils_to_bytes"; e_run := run_coils_to_bytes;
-       e_verdict := fun p a o => if (p =? 1) || (p =? 11) then verdict_coils_C01 a o else NOT_JUDGED |};
-    {| e_name := "is_coil_set"; e_run := run_is_coil_set;
-       e_verdict := fun p a o => if p =? 11 then verdict_is_coil_set_C11 a o else NOT_JUDGED |};
-    {| e_name := "coil_readback"; e_run := run_coil_readback;
-       e_verdict := fun p a o => if p =? 11 then verdict_coil_readback_C11 a o else NOT_JUDGED |};
-    {| e_name := "classify"; e_run := run_classify;
-       e_verdict := fun p a o => if p =? 18 then verdict_classify_C18 a o else NOT_JUDGED |};
-    {| e_name := "classify_enc"; e_run := run_classify_enc;
-       e_verdict := fun p a o => if p =? 18 then verdict_classify_enc_C18 a o else NOT_JUDGED |}
-  ].
-
-Fixpoint lookup_in (t : list entry) (n : string) : option entry :=
-  match t with
-  | [] => None
-  | e :: t' => if String.eqb (e_name e) n then Some e else lookup_in t' n
-  end.
 Definition lookup (n : string) : option entry := lookup_in table n.
-
-(* used by the kernel-checked golden samples *)
-Definition case := (string * list val * val)%type.
-Definition case_ok (c : case) : bool :=
-  match c with (n, a, o) =>
-    match lookup n with Some e => val_eqb (e_run e a) o | None => false end
-  end.
-Definition mismatches (cs : list case) : list case := filter (fun c => negb (case_ok c)) cs.
+Definition case_ok (c : case) : bool := case_ok_in table c.
+Definition mismatches (cs : list case) : list case := mismatches_in table cs.
